@@ -28,6 +28,7 @@
                vadd_r_eq mvmul_r_eq qred_eq vred_eq rotNd_r_eq qinv_n_eq
                apply_parts_r_eq      n2 q<>0 -> apply_parts_r (rot_parts_r q) v =v= mvmul (rot_impl q) v
                apply_parts_inv_r_eq  n2 q<>0 -> apply_parts_r (rot_parts_inv_r q) v =v= mvmul (rot_impl (qinv q)) v
+               qint_scale qint_rot qint_nonzero (integer representative, same rotation)
                rot_n_eq, close_rot_spec (close_rot compares the rotation matrices rot a, rot b)
    tolerance   close_abs_proper etc.: the boolean comparisons respect ==                      *)
 From Coq Require Import QArith Qabs Qminmax Qreduction Qfield Bool List Setoid Morphisms Lia Lqa.
@@ -477,13 +478,48 @@ Qed.
 Lemma qinv_n_eq q : qinv_n q =q= qinv q.
 Proof. unfold qinv_n, qinv, qeq. cbv zeta. cbn [qw qx qy qz]. conj; rewrite n2_r_eq; reflexivity. Qed.
 
+(* the integer representative *)
+Lemma qint_scale q : exists k, 0 < k /\ qint q =q= qscale k q.
+Proof.
+  unfold qint. cbv zeta.
+  set (k := Zpos (Pos.max (Pos.max (Qden (Qred (qw q))) (Qden (Qred (qx q)))) (Pos.max (Qden (Qred (qy q))) (Qden (Qred (qz q))))) # 1).
+  exists k. split; [reflexivity|].
+  unfold qscale, qeq. cbn [qw qx qy qz]. rewrite !Qred_correct. conj; reflexivity.
+Qed.
+Lemma qint_rot q : rot (qint q) =m= rot q.
+Proof.
+  destruct (qint_scale q) as (k & Hk & E). rewrite E. apply rot_scale.
+  intros Z. rewrite Z in Hk. discriminate.
+Qed.
+Lemma qint_nonzero q : ~ n2 q == 0 -> ~ n2 (qint q) == 0.
+Proof.
+  intros NZ. destruct (qint_scale q) as (k & Hk & E). rewrite E. apply n2_scale_nonzero; [|assumption].
+  intros Z. rewrite Z in Hk. discriminate.
+Qed.
+
+Lemma apply_rotNd q v : ~ n2 q == 0 ->
+  apply_parts_r (rotNd_r (n2_r q) q, n2_r q) v =v= mvmul (rot q) v.
+Proof.
+  intros NZ. unfold apply_parts_r. cbn [fst snd].
+  rewrite mvmul_r_eq, rotNd_r_eq, (rot_rotNd q NZ v), !n2_r_eq. reflexivity.
+Qed.
+Lemma apply_rotNd_conj q v : ~ n2 q == 0 ->
+  apply_parts_r (rotNd_r (n2_r q) (qconj q), n2_r q) v =v= mvmul (rot (qconj q)) v.
+Proof.
+  intros NZ. unfold apply_parts_r. cbn [fst snd].
+  rewrite mvmul_r_eq, rotNd_r_eq, !n2_r_eq.
+  revert NZ. destruct q as [w x y z], v as [a b c]. unf. unfold rotNd. cbv zeta.
+  cbn [qw qx qy qz vx vy vz m00 m01 m02 m10 m11 m12 m20 m21 m22]. intros NZ.
+  conj; field; assumption.
+Qed.
+
 Lemma apply_parts_r_eq q v : ~ n2 q == 0 -> apply_parts_r (rot_parts_r q) v =v= mvmul (rot_impl q) v.
 Proof.
   intros NZ. unfold rot_parts_r, rot_impl, unit_band. cbv zeta. rewrite n2_r_eq.
   destruct (Qlt_bool (Qabs (n2 q - 1)) band).
   - unfold apply_parts_r. cbn [fst snd]. rewrite mvmul_r_eq, rotNd_r_eq. change (rot_unit q) with (rotNd 1 q).
     unfold veq. cbn [vx vy vz]. conj; field.
-  - unfold apply_parts_r. cbn [fst snd]. rewrite mvmul_r_eq, rotNd_r_eq, (rot_rotNd q NZ v), !n2_r_eq. reflexivity.
+  - rewrite (apply_rotNd _ v (qint_nonzero q NZ)), qint_rot. reflexivity.
 Qed.
 
 Lemma unit_band_inv q : ~ n2 q == 0 -> unit_band (qinv q) = Qlt_bool (Qabs (/ n2 q - 1)) band.
@@ -492,16 +528,13 @@ Proof. intros NZ. unfold unit_band. rewrite (n2_inv q NZ). reflexivity. Qed.
 Lemma apply_parts_inv_r_eq q v : ~ n2 q == 0 -> apply_parts_r (rot_parts_inv_r q) v =v= mvmul (rot_impl (qinv q)) v.
 Proof.
   intros NZ. unfold rot_parts_inv_r, rot_impl. cbv zeta. rewrite (unit_band_inv q NZ), n2_r_eq.
-  unfold apply_parts_r. cbn [fst snd].
   destruct (Qlt_bool (Qabs (/ n2 q - 1)) band).
-  - rewrite mvmul_r_eq, rotNd_r_eq, rmul_eq, !n2_r_eq.
+  - unfold apply_parts_r. cbn [fst snd].
+    rewrite mvmul_r_eq, rotNd_r_eq, rmul_eq, !n2_r_eq.
     revert NZ. destruct q as [w x y z], v as [a b c]. unf. unfold rotNd. cbv zeta.
     cbn [qw qx qy qz vx vy vz m00 m01 m02 m10 m11 m12 m20 m21 m22]. intros NZ.
     conj; field; assumption.
-  - rewrite mvmul_r_eq, rotNd_r_eq, !n2_r_eq.
-    pose proof (n2_inv_nonzero q NZ) as NI. revert NZ NI. destruct q as [w x y z], v as [a b c]. unf. unfold rotNd. cbv zeta.
-    cbn [qw qx qy qz vx vy vz m00 m01 m02 m10 m11 m12 m20 m21 m22]. intros NZ NI.
-    conj; field; conj; assumption.
+  - rewrite (apply_rotNd_conj _ v (qint_nonzero q NZ)), rot_conj, qint_rot, (rot_inv q NZ). reflexivity.
 Qed.
 
 #[export] Instance apply_parts_r_proper : Proper (eq ==> veq ==> veq) apply_parts_r.
@@ -517,14 +550,60 @@ Proof.
   rewrite !n2_r_eq. unfold rotNd, rot. cbv zeta. cbn [m00 m01 m02 m10 m11 m12 m20 m21 m22].
   set (n := n2 q) in *. clearbody n. conj; field; assumption.
 Qed.
+
 (* close_rot is a statement about the rotation matrices *)
-Lemma close_rot_spec tol a b : ~ n2 a == 0 -> ~ n2 b == 0 ->
-  close_rot tol a b = close_mat tol 1 (rot a) (rot b).
+Lemma Qle_bool_ext a b c d : (a <= b <-> c <= d) -> Qle_bool a b = Qle_bool c d.
 Proof.
-  intros Ha Hb. unfold close_rot.
+  intros H. destruct (Qle_bool a b) eqn:E1, (Qle_bool c d) eqn:E2; try reflexivity.
+  - apply Qle_bool_iff in E1. apply H in E1. apply Qle_bool_iff in E1. congruence.
+  - apply Qle_bool_iff in E2. apply H in E2. apply Qle_bool_iff in E2. congruence.
+Qed.
+Lemma quot_close x y d e t : 0 < d -> 0 < e ->
+  Qle_bool (Qabs (x * e - y * d)) (t * (d * e)) = Qle_bool (Qabs (x / d - y / e)) (t * 1).
+Proof.
+  intros Hd He. apply Qle_bool_ext.
+  assert (Hde : 0 < d * e) by nra.
+  assert (Nd : ~ d == 0) by (intros Z; rewrite Z in Hd; discriminate).
+  assert (Ne : ~ e == 0) by (intros Z; rewrite Z in He; discriminate).
+  set (u := x / d - y / e).
+  assert (E : x * e - y * d == u * (d * e)) by (unfold u; field; split; assumption).
+  rewrite E, Qabs_Qmult, (Qabs_pos (d * e)) by (apply Qlt_le_weak; assumption).
+  rewrite Qmult_1_r. apply Qmult_le_r. assumption.
+Qed.
+Lemma n2_pos q : ~ n2 q == 0 -> 0 < n2 q.
+Proof.
+  intros NZ. pose proof (n2_nonneg q) as H. apply Qle_lteq in H. destruct H as [H|H]; [assumption|].
+  exfalso. apply NZ. symmetry. assumption.
+Qed.
+Lemma rot_entries q : ~ n2 q == 0 ->
+  rot q =m= (let n := n2 q in let M := rotNd n q in
+             mkM (m00 M / n) (m01 M / n) (m02 M / n) (m10 M / n) (m11 M / n) (m12 M / n) (m20 M / n) (m21 M / n) (m22 M / n)).
+Proof.
+  intros NZ. unfold rot, rotNd. cbv zeta. unfold meq. cbn [m00 m01 m02 m10 m11 m12 m20 m21 m22].
+  set (n := n2 q) in *. clearbody n. conj; field; assumption.
+Qed.
+Lemma close_rot_core_spec tol a b : ~ n2 a == 0 -> ~ n2 b == 0 ->
+  close_rot_core tol a b = close_mat tol 1 (rot a) (rot b).
+Proof.
+  intros Ha Hb. unfold close_rot_core. cbv zeta.
   assert (Za : Qeq_bool (n2_r a) 0 = false).
   { destruct (Qeq_bool (n2_r a) 0) eqn:E; [|reflexivity]. apply Qeq_bool_iff in E. rewrite n2_r_eq in E. contradiction. }
   assert (Zb : Qeq_bool (n2_r b) 0 = false).
   { destruct (Qeq_bool (n2_r b) 0) eqn:E; [|reflexivity]. apply Qeq_bool_iff in E. rewrite n2_r_eq in E. contradiction. }
-  rewrite Za, Zb. cbn [negb andb]. rewrite (rot_n_eq a Ha), (rot_n_eq b Hb). reflexivity.
+  rewrite Za, Zb. cbn [negb andb].
+  rewrite (close_mat_proper tol tol (Qeq_refl _) 1 1 (Qeq_refl _) _ _ (rot_entries a Ha) _ _ (rot_entries b Hb)).
+  unfold close_mat, close_abs. cbv zeta. cbn [m00 m01 m02 m10 m11 m12 m20 m21 m22].
+  pose proof (n2_pos a Ha) as Pa. pose proof (n2_pos b Hb) as Pb.
+  pose proof (rotNd_r_eq (n2_r a) a) as EA. pose proof (rotNd_r_eq (n2_r b) b) as EB.
+  unfold meq in EA, EB. decompose [and] EA. decompose [and] EB. clear EA EB.
+  repeat match goal with H : _ == _ |- _ => rewrite H; clear H end.
+  rewrite !rsub_eq, !rmul_eq, !n2_r_eq.
+  rewrite !(quot_close _ _ (n2 a) (n2 b) tol Pa Pb). reflexivity.
+Qed.
+Lemma close_rot_spec tol a b : ~ n2 a == 0 -> ~ n2 b == 0 ->
+  close_rot tol a b = close_mat tol 1 (rot a) (rot b).
+Proof.
+  intros Ha Hb. unfold close_rot.
+  rewrite (close_rot_core_spec _ _ _ (qint_nonzero a Ha) (qint_nonzero b Hb)).
+  apply close_mat_proper; try reflexivity; apply qint_rot.
 Qed.
